@@ -22,9 +22,17 @@ import (
 	"github.com/pion/webrtc/v3"
 )
 
-type eventSink struct{ events []event.SnowflakeEvent }
+type eventSink struct {
+	events   []event.SnowflakeEvent
+	rendered []string
+}
 
-func (s *eventSink) OnNewSnowflakeEvent(e event.SnowflakeEvent) { s.events = append(s.events, e) }
+// Like the client program's own listener (ptEventLogger), the sink renders every event with String(),
+// synchronously in the goroutine that dispatches it: a panic there is a panic of the client.
+func (s *eventSink) OnNewSnowflakeEvent(e event.SnowflakeEvent) {
+	s.events = append(s.events, e)
+	s.rendered = append(s.rendered, e.String())
+}
 
 func (s *eventSink) hasError() bool {
 	for _, e := range s.events {
@@ -87,7 +95,7 @@ func TestVerifEnumC15(t *testing.T) {
 	log.SetOutput(io.Discard)
 	r := en.New()
 	defer r.Done()
-	r.Begin("constructor-failures", "NewWebRTCPeerWithEvents (real pion) x ICE configurations {none, [\"\"], [\"foo\"], [\"stun:127.0.0.1:1\"], [\"turn:x\"]} x rendezvous outcomes {transport error, empty, non-JSON, error member, hostile descriptions, valid answer whose data channel never opens}: returns an error (and reports an event with it), never panics")
+	r.Begin("constructor-failures", "NewWebRTCPeerWithEvents (real pion) x ICE configurations {none, [\"\"], [\"foo\"], [\"stun:127.0.0.1:1\"], [\"turn:x\"]} x rendezvous outcomes {transport error, empty, non-JSON, error member, hostile descriptions, valid answer whose data channel never opens}: returns an error (and reports an event with it), never panics; the listener renders every event with String() as the client program's does")
 	iceConfigs := [][]string{nil, {""}, {"foo"}, {"stun:127.0.0.1:1"}, {"turn:x"}, {"stun:"}}
 	type rdv struct {
 		name string
